@@ -49,6 +49,9 @@ type Opts struct {
 	// KeyVariants puts blanks, tabs, quotes, backslashes, '=' or non-ASCII letters inside some keys
 	// (outside C07's domain: ToCommandLine does not quote).
 	KeyVariants bool
+	// AllLast sometimes appends "all" after explicit syscalls (outside C07's domain only in so far as the
+	// printed form is "-S all"; enabled by C06).
+	AllLast bool
 }
 
 func randSafe(r *mon.Rand, n int) string {
@@ -409,6 +412,9 @@ func Random(r *mon.Rand, o *Opts) *Spec {
 				s.Syscalls = append(s.Syscalls, sc)
 			}
 		}
+	}
+	if len(s.Syscalls) > 0 && o.AllLast && r.Chance(1, 8) {
+		s.AllLast = true
 	}
 	// keys (joined length <= 256)
 	if len(s.Filters) < 64 && s.List != "exclude" { // the kernel (and the library) refuse keys on the exclude list
